@@ -165,6 +165,14 @@ fn ilv_programs() -> Vec<Program> {
     v.push(mk("ilv/upsert(a,w=1)||{clock;tick} sweeping a/W=6", 6, vec![put_ttl(1, 4, 1000), put(2, 1)], vec![vec![Op::Upsert { k: 1, value: true, w: Some(1), ttl_ms: None, remove_ttl: false }], vec![adv(3000), Op::Tick]]));
     v.push(mk("ilv/evicting-put(c,5)||{tick} sweeping a/W=6", 6, vec![put_ttl(1, 3, 1000), put(2, 3), adv(3000)], vec![vec![put(3, 5)], vec![Op::Tick]]));
     v.push(mk("ilv/put(b,2);put(c,2)||delete(a);put(a,3)/W=4", 4, vec![put(1, 2)], vec![vec![put(2, 2), put(3, 2)], vec![del(1), put(1, 3)]]));
+    for (name, w, init, threads) in [
+        ("ilv/put(a,2)||put(b,2)||{tick} sweeping c||upsert(c,w=1)/W=4", 4i64, vec![put_ttl(3, 2, 1000), adv(3000)], vec![vec![put(1, 2)], vec![put(2, 2)], vec![Op::Tick], vec![Op::Upsert { k: 3, value: true, w: Some(1), ttl_ms: None, remove_ttl: false }]]),
+        ("ilv/put(c,4)||delete(a);put(a,2)||put(d,1)/W=5", 5, vec![put(1, 2), put(2, 2)], vec![vec![put(3, 4)], vec![del(1), put(1, 2)], vec![put(4, 1)]]),
+    ] {
+        let mut p = mk(name, w, init, threads);
+        p.thorough_only = true;
+        v.push(p);
+    }
     v
 }
 
@@ -176,7 +184,7 @@ pub fn def(ctx: &Ctx) -> PropertyDef {
     }
     let quick = ctx.quick();
     let workers = ctx.workers;
-    for p in ilv_programs() {
+    for p in crate::harness::ilv::for_tier(ilv_programs(), quick) {
         let three = p.threads.len() >= 3;
         scenarios.push({
                 let nthreads = p.threads.len();
